@@ -24,7 +24,13 @@ def replay(g, o, assigns, path):
     if g.name.startswith(("argsort.", "ctor.", "bothends.", "cmp.", "table.")):
         from props import C18
         return C18.replay(g, o, assigns, path)
-    return None
+    from vlib import replay as RP
+    r = RP.run_native(PROP, RP.src("solver_replay.cpp"), args=["selection"], timeout=900)
+    if not r.get("reproduced"):
+        r2 = RP.run_native(PROP, RP.src("solver_replay.cpp"), args=["history"], timeout=900, name="replay2")
+        if r2.get("reproduced"):
+            return r2
+    return r
 
 
 MANIFEST = {
